@@ -629,9 +629,17 @@ func (w *World) opMul() {
 func (w *World) opMulti() {
 	r := w.pickPoint("recv")
 	n := w.t.Choose("ops", "multi.n", 5)
+	recvAt := 0
+	if w.t.Chance("ops", "multi.large", 1, 10) {
+		// a long list (an implementation may batch or take another path
+		// above some size), the receiver possibly anywhere in it
+		n = []int{33, 40, 64, 65, 70}[w.t.Choose("ops", "multi.largen", 5)]
+		recvAt = w.t.Choose("ops", "multi.recvat", n)
+		w.r.Probe("multi_large_list")
+	}
 	var ps, ss []int
 	for i := 0; i < n; i++ {
-		if i == 0 && w.t.Chance("ops", "multi.recvin", 1, 3) {
+		if i == recvAt && w.t.Chance("ops", "multi.recvin", 1, 3) {
 			ps = append(ps, r) // the receiver appears among the inputs
 		} else {
 			ps = append(ps, w.pickPoint("mp"))
@@ -651,7 +659,9 @@ func (w *World) opMulti() {
 	if vartime {
 		name = "MultiScalarMultVartime"
 	}
-	w.r.Probe(fmt.Sprintf("multi_len_%d", n))
+	if n <= 5 {
+		w.r.Probe(fmt.Sprintf("multi_len_%d", n))
+	}
 	if !vartime && len(ss) == len(ps) && len(ss) >= 2 {
 		for _, si := range ss {
 			w.noteLookups(w.scalars[si].Bytes())
